@@ -1956,6 +1956,9 @@ def att_bug_fsub_fdiv(name, args, asm_format):
         return name
 
 def mnemo_from_att(prefix, name, args, asm_format):
+    if name == 'lcall' and len(args) == 2:
+        # lcall $seg, $off is the two-operand 'call' row (9A)
+        return prefix, 'call'
     if name in ['call', 'jmp']:
         for a in args:
             if a[x86_afs.ad] == True:
@@ -2067,6 +2070,11 @@ def mnemo_to_att(name, args, asm_format):
                     argsize = 'u%02d'%tab_int_size[type(args[0][x86_afs.imm])]
                 if size == argsize:
                     return name + suffix
+    if name == 'jmpf':
+        return 'ljmp'
+    if name == 'callf' or (name == 'call' and len(args) == 2):
+        # far call (the immediate form 9A is a 'call' row with two operands)
+        return 'lcall'
     if name == 'call' or name.startswith('j'):
         return name
     elif name.startswith('set'):
@@ -2360,6 +2368,9 @@ class x86_mn(x86_mn_base):
                     args[0] = args[0][1:]
                 else:
                     args[0] = '*'+args[0]
+            elif mnemo[-1] in ['ljmp', 'lcall'] and args[0][0] != '$':
+                # ljmp $seg, $off keeps its sigils; the indirect form takes a star
+                args[0] = '*'+args[0]
         else:
             # jmp/call to indirect address has additional brackets
             if self.m.name in ['jmp','call'] and self.arg[0].get(x86_afs.ad, False) and not args[0].endswith(']'):
